@@ -524,6 +524,15 @@ DevSkipDefaultInsideValue(shape, cfg, fl) ==
          tree  == CfgTree(shape, cfg, o)
          dtree == CfgTree(shape, DefaultsCfg(shape), o)
      IN ~Bad(tree) /\ ~Bad(dtree) /\ InnerDeletion(shape.top, tree, dtree)
+\* D4  skip_default compares with Python's == (1 == 1.0 == True, 0.0 == -0.0): an entry that EQUALS its default but is of
+\*     another type (or sign) is removed, and the re-parse gives the default instead
+DevSkipDefaultOtherType(shape, cfg, fl) ==
+  /\ fl.skipdefault /\ ~DevSkipDefaultRequiredSub(shape, fl)
+  /\ \E i \in 1..Len(shape.top) :
+        LET o == Opts(TRUE, fl.skipnone)
+            a == IF cfg.top[i].k = "null" THEN cfg.top[i] ELSE Ser(shape.top[i].t, cfg.top[i], o)
+            b == IF shape.top[i].d.k = "null" THEN shape.top[i].d ELSE Ser(shape.top[i].t, shape.top[i].d, o)
+        IN ~Bad(a) /\ ~Bad(b) /\ PyEq(a, b) /\ ~Same(cfg.top[i], shape.top[i].d)
 \* hazard scalars anywhere in the dump
 CfgHazards(shape, cfg, fmt, fl) ==
   LET tree == DumpTree(shape, cfg, Flags(TRUE, fl.skipnone, FALSE)) IN
@@ -534,6 +543,7 @@ CfgDeviations(shape, cfg, fmt, fl) ==
   (IF DevSubcommandLost(shape, cfg, fl) THEN {"subcommand-selector-not-dumped"} ELSE {})
   \cup (IF DevSkipDefaultRequiredSub(shape, fl) THEN {"skip-default-required-subcommand-raises"} ELSE {})
   \cup (IF DevSkipDefaultInsideValue(shape, cfg, fl) THEN {"skip-default-inside-dict-value"} ELSE {})
+  \cup (IF DevSkipDefaultOtherType(shape, cfg, fl) THEN {"skip-default-equal-but-other-type"} ELSE {})
   \cup CfgHazards(shape, cfg, fmt, fl)
 CfgRoundTripModuloKnown(shape, cfg, fmt, fl) ==
   CfgRoundTrip(shape, cfg, fmt, fl) \/ IsUnsure(ReparseCfg(shape, cfg, fmt, fl)) \/ CfgDeviations(shape, cfg, fmt, fl) # {}
